@@ -16,14 +16,16 @@ Theorem C02_rdflib_triples_valid :
 Proof. exact rdf_triples_stream_valid. Qed.
 Print Assumptions C02_rdflib_triples_valid.
 
-(* ... and the rdflib parser decodes what the stream denotes: it agrees with the generic decoder
-   frame by frame on RDF 1.1 streams, and the generic decoder is sound (C04). *)
-Theorem C02_rdflib_parser_agrees :
+(* ... and the rdflib parser decodes what the stream denotes, as rdflib's terms: frame by frame it hands out the VIEW
+   (AgreeProofs.rview: rdflib's Literal constructor applied to each literal) of what the generic decoder hands out on RDF 1.1
+   streams, and the generic decoder is sound (C04).  On terms an rdflib Graph can hold the view is the term itself
+   (C02_rdflib_bytes_round_trip_* below). *)
+Theorem C02_rdflib_parser_is_view_of_generic :
   forall (ak : adapter_kind) (po : poptions) (fs : list frame) (st : dstate),
     forallb (fun f => forallb row_rdf11 (f_rows f)) fs = true ->
-    decode_frames Generic ak po fs st = decode_frames Rdflib ak po fs st.
-Proof. exact decode_frames_agree. Qed.
-Print Assumptions C02_rdflib_parser_agrees.
+    decode_frames Rdflib ak po fs (vst st) = map fview (decode_frames Generic ak po fs st).
+Proof. exact decode_frames_view. Qed.
+Print Assumptions C02_rdflib_parser_is_view_of_generic.
 
 Theorem C02_generic_parser_sound :
   forall (fs : list frame) (evs : list event) (dl : bool),
@@ -92,23 +94,24 @@ Print Assumptions C02_rdflib_triples_over_dataset_valid.
 (* ---- at the byte level, through the rdflib parser ---- *)
 From PJ.Proofs Require Import WireRT BytesE2E RdflibBytes.
 
-(* the rdflib parser model (a second copy of the decoder) reads any valid stream without quoted
-   triples -- all the rdflib writer can produce -- to exactly what the referee assigns it *)
+(* the rdflib parser model (a second copy of the decoder, with rdflib's term constructors) reads any valid stream without quoted
+   triples and with well-formed language tags -- all the rdflib writer can produce -- to the view of what the referee assigns it *)
 Theorem C02_rdflib_parser_reads_valid_bytes :
   forall (fs : list frame) (evs : list event) (grouped : bool),
     run_frames fs = Valid evs -> Forall small fs -> rows_rdf11 (flat_map f_rows fs) ->
     (match fs with f :: _ => (f_rows f = [] /\ f_meta f = []) \/ f_rows f <> [] | [] => True end) ->
     let r := parse_stream Rdflib grouped false (write_delimited fs) in
-    flat_events r = evs /\ pr_end r = PEnd /\ length (pr_frames r) = length fs.
+    flat_events r = map eview evs /\ pr_end r = PEnd /\ length (pr_frames r) = length fs.
 Proof. exact valid_bytes_decode_rdflib. Qed.
 Print Assumptions C02_rdflib_parser_reads_valid_bytes.
 
-(* Graph.serialize -> bytes -> rdflib parser: the input triples, in the order rdflib iterated them *)
+(* Graph.serialize -> bytes -> rdflib parser: the input triples, in the order rdflib iterated them (stmts_rdflib: the terms are ones
+   rdflib can hold -- its constructor leaves their lexical form alone and accepts their language tag; every term of a Graph is) *)
 Theorem C02_rdflib_bytes_round_trip_graph :
   forall (o : soptions) (s s' : stream) (d : rdata) (evs : list tev) (grouped : bool),
     stream_new TripleStream Rdflib o = Ok s -> cfg_ok o (st_logical s) ->
     p_nd (so_params o) = false -> fl_rows (st_flow s) = [] ->
-    rd_kind d <> RDataset -> stmts_rdf11 (rd_stmts d) = true ->
+    rd_kind d <> RDataset -> stmts_rdf11 (rd_stmts d) = true -> stmts_rdflib (rd_stmts d) = true ->
     rdf_triples_stream_frames d s = (s', evs) -> raised evs = None -> Forall small (emitted evs) ->
     let r := parse_stream Rdflib grouped false (write_delimited (emitted evs)) in
     flat_events r = flat_map event_of_triple (rd_stmts d) /\ pr_end r = PEnd /\ length (pr_frames r) = length (emitted evs).
@@ -120,9 +123,14 @@ Theorem C02_rdflib_bytes_round_trip_dataset :
   forall (o : soptions) (s s' : stream) (d : rdata) (evs : list tev) (grouped : bool),
     stream_new QuadStream Rdflib o = Ok s -> cfg_ok o (st_logical s) ->
     p_nd (so_params o) = false -> fl_rows (st_flow s) = [] ->
-    forallb spo_rdf11 (rd_stmts d) = true ->
+    forallb spo_rdf11 (rd_stmts d) = true -> stmts_rdflib (rd_stmts d) = true ->
     rdf_quads_stream_frames d s = (s', evs) -> raised evs = None -> Forall small (emitted evs) ->
     let r := parse_stream Rdflib grouped false (write_delimited (emitted evs)) in
     flat_events r = flat_map event_of_quad (map quad_inv (rd_stmts d)) /\ pr_end r = PEnd /\ length (pr_frames r) = length (emitted evs).
 Proof. exact rdf_quads_bytes_round_trip. Qed.
 Print Assumptions C02_rdflib_bytes_round_trip_dataset.
+
+(* non-vacuity of stmts_rdflib: a statement with a language-tagged literal and an xsd:token literal in the form rdflib holds *)
+Example C02_rdflib_terms_exist :
+  stmts_rdflib [[TIri [104]; TIri [112]; TLit [104; 105] (Some [101; 110]) None]; [TBnode [98]; TIri [112]; TLit [97; 32; 98] None (Some xsd_token)]] = true.
+Proof. vm_compute. reflexivity. Qed.
